@@ -39,6 +39,7 @@ def run(ctx):
             # chunk invariance needs every byte to go through the transition function from the carried state: a fast path that
             # consumes bytes any other way behaves differently when a chunk happens to start where it applies (S5)
             scanner.rule_S5(sc, rep)
+            scanner.rule_S6(sc, rep)
         rep.guarded("carry", scanner.MOD + name, scan)
     rep.guarded("owned-state", "anstream::adapter", lambda: rule_owned(facts, rep))
     rep.guarded("same-start", "anstream::adapter", lambda: rule_same_start(facts, rep))
@@ -50,11 +51,12 @@ def run(ctx):
     rep.guarded("W1", "anstream::strip::write", lambda: stripstream.rule_W1_W3(facts, w1))
     rep.guarded("through", "anstream::strip", lambda: stripstream.rule_through(facts, rep, "through"))
     rep.guarded("who-writes", "anstream::adapter", lambda: rule_who_writes(facts, rep))
+    rep.guarded("between-slices", AD + "strip::StrippedBytes", lambda: rule_between_slices(facts, rep))
     # the styled-run extractor closes a run exactly when the style changes with text pending — on anything else (what the text is,
     # what the styles are) the runs would depend on where a chunk ends, since the end of a chunk flushes the pending text too
     from rules import C07
     rep.guarded("emit", C07.FN + "csi_dispatch", lambda: C07.rule_emit(facts, rep))
-    for r, n in (("S1", 7), ("S2", 8), ("owned-state", 9), ("same-start", 6), ("byte-at-a-time", 5), ("W1", 4), ("through", 7), ("who-writes", 3), ("S5", 12), ("emit", 9)):
+    for r, n in (("S1", 7), ("S2", 8), ("owned-state", 9), ("same-start", 6), ("byte-at-a-time", 6), ("W1", 4), ("through", 7), ("who-writes", 3), ("S5", 12), ("S6", 5), ("between-slices", 1), ("emit", 9)):
         rep.floor(r, n)
 
 
@@ -155,7 +157,9 @@ def rule_byte_at_a_time(facts, rep):
         O = hir.Origins(b["hir"])
         src, proj = O.of(call["args"][2])
         ok_split = hir.is_call(src, "split_first") and hir.is_local(hir.peel(src["args"][0]), "bytes") and proj == ("Some", ("tup", 0))
-        stores = hir.visit_with_conds(loop, lambda n: n.get("k") == "assign" and hir.is_local(n["l"], "bytes") and hir.simp(n["l"]).get("k") == "un")
+        # (anywhere in the function: input consumed before or after the loop does not pass through the parser at all, and what the
+        # parser's state makes of the following bytes then depends on where the chunk started)
+        stores = hir.visit_with_conds(b["hir"], lambda n: n.get("k") in ("assign", "assignop") and hir.is_local(n["l"], "bytes") and hir.simp(n["l"]).get("k") == "un")
         if ok_split and len(stores) == 1:
             st_node, st_frames = stores[0]
             s2, p2 = O.of(st_node["r"])
@@ -175,6 +179,20 @@ def rule_byte_at_a_time(facts, rep):
     rep.check(ok_split, "byte-at-a-time", b["path"], "byte-from-split_first", "", loc(b))
     rep.check(ok_adv, "byte-at-a-time", b["path"], "advance-input-by-one", "*bytes = remainder; the first byte goes to the parser", loc(b))
     rep.check(ok_break, "byte-at-a-time", b["path"], "stop-at-end-of-chunk", "", loc(b))
+    # the pending text is produced by the parser's callbacks only: here it is looked at and handed out, never added to
+    writers = []
+    for n in hir.walk(b["hir"]):
+        if n.get("k") == "call" and not n.get("ctor") and n.get("args"):
+            a0 = hir.simp(n["args"][0])
+            by_mut = str(n.get("recv_adj_ty", "")).startswith("&mut") or (a0.get("k") == "ref" and a0.get("mut"))
+            if by_mut and hir.place_str(hir.peel(a0)) == "capture.printable" and hir.callee(n).split("::")[-1] not in ("take", "replace", "swap"):
+                writers.append(hir.callee(n))
+        if n.get("k") in ("assign", "assignop") and (hir.place_str(n["l"]) or "").startswith("capture.printable"):
+            rhs = hir.simp(n["r"])
+            if not (hir.is_call(rhs, "String::new") or hir.is_call(rhs, "Default::default")):
+                writers.append("assignment")
+    rep.check(not writers, "byte-at-a-time", b["path"], "text-only-from-the-parser",
+              f"next_bytes adds to the pending text itself ({writers}): those bytes bypass the parser state carried over from the previous chunk", loc(b))
     # the iterator's next() delegates with its own borrowed state
     n = facts.body("anstream", "<anstream::adapter::wincon::WinconBytesIter<'_> as core::iter::traits::iterator::Iterator>::next")
     st = hir.stmts_of(n["hir"])
@@ -197,3 +215,48 @@ def rule_who_writes(facts, rep):
         rep.check(not stores and not calls and not conds, "who-writes", path, "entry-point-only-borrows",
                   f"per-chunk entry point must only build the iterator from &mut borrows; found stores "
                   f"{[hirpp.expr(s)[:50] for s in stores]}, calls {calls}, branches {len(conds)}", loc(b))
+
+
+def rule_between_slices(facts, rep, rule="between-slices"):
+    """A one-shot stripper fed several slices (`extend`) is the chunked adapter under another name: what is carried from one slice
+    to the next is the escape state *and* the UTF-8 decoder. By abstract evaluation of every inherent `&mut self` method of the
+    one-shot types on a symbolic value: all fields but `bytes` come out as they went in."""
+    import abseval
+    n = 0
+    for b in facts.bodies("anstream"):
+        if not (b["path"].startswith(AD + "strip::Stripped") and b.get("kind") == "AssocFn" and "hir" in b
+                and b.get("sig", "").startswith("fn(&mut anstream::adapter::strip::Stripped")):
+            continue
+        ty = b["sig"][len("fn(&mut "):].split("<")[0]
+        it = facts.item("anstream", ty, "Struct")
+        fields = [f["name"] for f in it["variants"][0]["fields"]]
+        self0 = ("rec", {f: ("sym", f + "-before") for f in fields})
+        args = [self0] + [("sym", f"arg{i}") for i in range(1, len(b["params"]))]
+        rep.fn(b["path"])
+        n += 1
+
+        def unint(callee, a_, e):
+            if e.get("ty") == "bool":
+                return ("bool", ev.oracle(("app", callee, repr(a_))))
+            return ("app", callee) + tuple(a_)
+        ev = abseval.Evaluator(facts, "anstream", {"*": unint})
+
+        def run(choices):
+            ev.choices = choices
+            fin = []
+            ev.call_fn("anstream", b["path"], args, final=fin)
+            return fin[0]
+        bad = []
+        try:
+            for choices, after in abseval.explore(run):
+                if after[0] != "rec":
+                    bad.append(f"self becomes {after}")
+                    continue
+                for f in fields:
+                    if f != "bytes" and after[1].get(f) != ("sym", f + "-before"):
+                        bad.append(f"`{f}` becomes {after[1].get(f)}")
+        except Unrecognised as ex:
+            bad.append(f"not evaluable: {ex}")
+        rep.check(not bad, rule, b["path"], "carries-state-and-decoder",
+                  f"every field but `bytes` is left as it was (fields {fields}) {sorted(set(bad))[:2]}"[:400], loc(b))
+    return n
